@@ -29,7 +29,15 @@ def main():
         mod = importlib.import_module("harness.props." + prop.lower())
         if args.replay:
             payload = json.load(open(args.replay, encoding="utf8"))
-            out = mod.replay(payload.get("case", payload))
+            case = payload.get("case", payload)
+            if isinstance(case, dict) and case.get("op") == "cli_call":
+                from harness import clicall
+                out = clicall.replay(case)
+            elif isinstance(case, dict) and case.get("op") == "cli_equiv":
+                from harness import cliequiv
+                out = cliequiv.replay(case)
+            else:
+                out = mod.replay(case)
             print(json.dumps(out, indent=1, ensure_ascii=True, default=str))
             return 0
         audit = core.run_audit(prop)
